@@ -537,6 +537,9 @@ class Manager:
                         state.parent,
                     ),
                 )
+                if not state.run:
+                    # The awaited event never came: its handler is still there
+                    self.removeHandler(_on_event_handler, event_name)
                 self.removeHandler(_on_done_handler, '%s_done' % event_name)
                 self.removeHandler(_on_tick_handler, 'generate_events')
             elif state.timeout > 0:
